@@ -219,28 +219,7 @@ def run(cx, rep):
                 rep.ob("C16.5", "%s/%s" % (fname, mc[1]), False, "%s reads a collected definition body through %s()" % (fname, mc[1]), mod.loc(n))
     # ---------------------------------------------------------------- C16.4
     rep.rule("C16.4", "schema printing keeps no state on the validator instances (it is a function of the type and the context)")
-    MUT = {"set", "add", "push", "delete", "clear", "splice", "pop", "shift", "unshift"}
-    n_m = 0
-    for cname, c in sorted(mod.classes.items()):
-        if c is spc or "schema" not in c.methods:
-            continue
-        for mname in sorted(schema_reachable_methods(c)):
-            fn = c.methods[mname]["function"]
-            n_m += 1
-            for n in walk(fn):
-                bad = None
-                if n["type"] == "AssignmentExpression" and s(n["left"]).startswith("this."):
-                    bad = "assignment to %s" % s(n["left"])
-                elif n["type"] == "CallExpression":
-                    mc = method_call(n)
-                    if mc and mc[1] in MUT and s(mc[0]).startswith("this.") and s(mc[0]).count(".") == 1:
-                        bad = "%s.%s(..)" % (s(mc[0]), mc[1])
-                if bad:
-                    rep.ob("C16.4", "%s.%s/%s" % (cname, mname, bad), False,
-                           "%s.%s (reached from schema()) writes instance state (%s): what a later SchemaPrintingContext receives then depends on which contexts printed this validator before" % (cname, mname, bad),
-                           mod.loc(n))
-    rep.ob("C16.4", "scan", True, sample={"schema_reachable_methods_scanned": n_m})
-    rep.floor("C16.4", "schema-reachable methods", n_m, 22)
+    instance_state_rule(mod, spc, rep, "C16.4")
     # ---------------------------------------------------------------- C16.3
     rep.rule("C16.6", "every path that stores the definition of a named type consults the schema override")
     override_consistency_rule(mod, spc, storers, rep, "C16.6")
@@ -352,3 +331,30 @@ def guarded_by_absence(fn, call, name):
         if m and m.group(3) == name:
             got.add(m.group(2))
     return got == {"hasDefinition", "isDefinitionInProgress"}
+
+
+def instance_state_rule(mod, spc, rep, rid):
+    """schema() and the methods it reaches write nothing on `this`: a memo on the validator instance survives the
+    context it was filled for, so a later context is not given the definitions the first one received"""
+    MUT = {"set", "add", "push", "delete", "clear", "splice", "pop", "shift", "unshift"}
+    n_m = 0
+    for cname, c in sorted(mod.classes.items()):
+        if c is spc or "schema" not in c.methods:
+            continue
+        for mname in sorted(schema_reachable_methods(c)):
+            fn = c.methods[mname]["function"]
+            n_m += 1
+            for n in walk(fn):
+                bad = None
+                if n["type"] == "AssignmentExpression" and s(n["left"]).startswith("this."):
+                    bad = "assignment to %s" % s(n["left"])
+                elif n["type"] == "CallExpression":
+                    mc = method_call(n)
+                    if mc and mc[1] in MUT and s(mc[0]).startswith("this.") and s(mc[0]).count(".") == 1:
+                        bad = "%s.%s(..)" % (s(mc[0]), mc[1])
+                if bad:
+                    rep.ob(rid, "%s.%s/%s" % (cname, mname, bad), False,
+                           "%s.%s (reached from schema()) writes instance state (%s): what a later SchemaPrintingContext receives then depends on which contexts printed this validator before" % (cname, mname, bad),
+                           mod.loc(n))
+    rep.ob(rid, "scan", True, sample={"schema_reachable_methods_scanned": n_m})
+    rep.floor(rid, "schema-reachable methods", n_m, 22)
